@@ -18,10 +18,23 @@ the emitter's own metrics are read through `metric_source().sample_metrics`:
 The exact expectations assume the worker really stayed stalled; that is confirmed at the end from
 the collector's log (still exactly one request seen). If the worker moved, only the bound
 (`<= capacity`) is judged and the scenario is reported as inconclusive.
+
+Section `growth` (runs ALONE in the process, before the parallel scenarios, because the counting
+allocator is process-wide): against the same stalled collector (request timeout raised to 10 min
+so the worker really stays inside its first request), 24 (thorough: 40) blocks of 10 000 events
+carrying a ~1 KiB property are emitted and the live heap is read after every block. Judged is
+GROWTH, not an absolute number: what a counted truncation discards must be freed, so after the
+first truncation the live heap must not keep rising with the number of emitted events. Alarm iff at
+some block k >= 8 the heap retained since the start exceeds 3 x capacity x event size AND it rose by
+more than a quarter of an event per emitted event between block k/2 and block k (event size = the larger of
+the nominal 1 KiB and what the first, truncation-free block retained per event). Nothing is recorded
+per event in the measured phase; the metrics are read once per block, after the heap sample.
 */
 
 #[path = "../shared/collector.rs"]
 mod collector;
+#[path = "../shared/countalloc.rs"]
+mod countalloc;
 
 use std::{
     collections::{BTreeMap, BTreeSet},
@@ -33,6 +46,9 @@ use emit::Emitter as _;
 use vcommon::*;
 
 const CAPACITY: u64 = 10_000;
+
+#[global_allocator]
+static ALLOC: countalloc::Counting = countalloc::Counting;
 
 fn all_metrics(otlp: &emit_otlp::Otlp) -> BTreeMap<String, u64> {
     use emit::metric::Source as _;
@@ -70,6 +86,215 @@ fn emit_ev(otlp: &emit_otlp::Otlp, vid: u64, signal: Signal) {
             ];
             otlp.emit(emit::Event::new(mdl, tpl, emit::Extent::point(ts(vid % 1000, 1)), &props[..]));
         }
+    }
+}
+
+// ---------------------------------------------------------------------------
+// section `growth`: what a truncation discards must be freed
+// ---------------------------------------------------------------------------
+
+/// An event of the signal with a `pad` property of `pad.len()` bytes (no per-event allocation
+/// besides the name; the pad is borrowed).
+fn emit_big(otlp: &emit_otlp::Otlp, vid: u64, signal: Signal, pad: &str) {
+    use emit::Value;
+    let mut name_buf = [0u8; 24];
+    let name = {
+        use std::io::Write as _;
+        let mut cur = std::io::Cursor::new(&mut name_buf[..]);
+        let _ = write!(cur, "v{}", vid);
+        let n = cur.position() as usize;
+        std::str::from_utf8(&name_buf[..n]).unwrap_or("v")
+    };
+    let tpl = emit::Template::literal_ref(name);
+    let mdl = emit::Path::new_raw("verif::c09");
+    let kind_span = emit::Kind::Span;
+    let kind_metric = emit::Kind::Metric;
+    match signal {
+        Signal::Logs => {
+            let props = [("pad", Value::from(pad)), ("vid", Value::from(vid as i64))];
+            otlp.emit(emit::Event::new(mdl, tpl, emit::Extent::point(ts(vid % 1000, 1)), &props[..]));
+        }
+        Signal::Traces => {
+            let props = [("evt_kind", Value::from_any(&kind_span)), ("pad", Value::from(pad)), ("vid", Value::from(vid as i64))];
+            otlp.emit(emit::Event::new(mdl, tpl, emit::Extent::range(ts(vid % 1000, 1)..ts(vid % 1000 + 1, 2)), &props[..]));
+        }
+        Signal::Metrics => {
+            let props = [
+                ("evt_kind", Value::from_any(&kind_metric)),
+                ("metric_agg", Value::from("count")),
+                ("metric_value", Value::from(1)),
+                ("pad", Value::from(pad)),
+                ("vid", Value::from(vid as i64)),
+            ];
+            otlp.emit(emit::Event::new(mdl, tpl, emit::Extent::point(ts(vid % 1000, 1)), &props[..]));
+        }
+    }
+}
+
+/// First block at which the growth rule is evaluated (then after every block).
+const GROWTH_MIN_BLOCK: usize = 8;
+
+/// The growth rule over `series[k]` = live heap after block k (`series[0]` = before the first block).
+/// Returns (k, retained, rise since k/2, limit for retained, limit for the rise) when it fires at the last block.
+fn growth_alarm(series: &[i64], ev: i64) -> Option<(usize, i64, i64, i64, i64)> {
+    let k = series.len() - 1;
+    if k < GROWTH_MIN_BLOCK {
+        return None;
+    }
+    let h = k / 2;
+    let retained = series[k] - series[0];
+    let rise = series[k] - series[h];
+    let retained_limit = 3 * CAPACITY as i64 * ev;
+    let rise_limit = ev / 4 * (k - h) as i64 * CAPACITY as i64;
+    (retained > retained_limit && rise > rise_limit).then_some((k, retained, rise, retained_limit, rise_limit))
+}
+
+fn growth(r: &mut Report, seed: u64, case: u64, blocks: usize, print: bool) {
+    r.eval();
+    let mut g = Rng::stream(seed, &[9, 21, case]);
+    let signal = Signal::ALL[(case % 3) as usize];
+    let transport = Transport::ALL[((case + case / 3) % 3) as usize];
+    let gzip = case / 9 % 2 == 1;
+    let subset: u8 = signal.bit();
+    let sname = signal.name();
+    let pad_len = 960 + g.usize(64);
+    let case_json = json!({
+        "section": "growth", "seed": seed, "case": case, "signal": sname, "transport": transport.name(), "gzip": gzip,
+        "blocks": blocks, "pad_len": pad_len,
+    });
+    if !countalloc::installed() {
+        r.inconclusive("growth: the counting allocator is not installed");
+        return;
+    }
+    let col = Collector::start(vec![EndpointCfg { signal, wire: transport.wire(), listen: true, script: vec![] }]);
+    col.set_repeat(signal, Some(Decision::HoldAck(600_000)));
+    let otlp = build_otlp(&col, transport, gzip, subset);
+    let q = format!("otlp_{}_queue_length", sname);
+    let t = format!("otlp_{}_queue_full_truncated", sname);
+    let pad: String = (0..pad_len).map(|i| (b'a' + (i % 26) as u8) as char).collect();
+
+    // park the worker on one held request
+    let mut vid = case * 10_000_000 + 1;
+    emit_big(&otlp, vid, signal, &pad);
+    vid += 1;
+    let parked = col.wait_until(Duration::from_secs(30), |recs| recs.iter().any(|rec| rec.endpoint == signal));
+    let start = std::time::Instant::now();
+    let mut drained = false;
+    while start.elapsed() < Duration::from_secs(10) {
+        if all_metrics(&otlp).get(&q) == Some(&0) {
+            drained = true;
+            break;
+        }
+        std::thread::sleep(Duration::from_millis(1));
+    }
+    if !parked || !drained {
+        r.inconclusive(format!("growth otlp {}: the worker did not get parked on a held request", sname));
+        col.shutdown();
+        return;
+    }
+    // let the collector's side of the held request settle (it allocates while it reads the body)
+    std::thread::sleep(Duration::from_millis(50));
+
+    let nominal = 1024i64;
+    let mut ev = nominal;
+    let mut series: Vec<i64> = Vec::with_capacity(blocks + 2);
+    let mut max_len = 0u64;
+    let mut trunc = 0u64;
+    let mut alarm = None;
+    let t0 = std::time::Instant::now();
+    let mut watchdog = false;
+    series.push(countalloc::live_bytes());
+    for k in 1..=blocks {
+        // ---- measured phase: nothing is recorded per event ----
+        for _ in 0..CAPACITY {
+            emit_big(&otlp, vid, signal, &pad[..pad_len - (vid % 97) as usize]);
+            vid += 1;
+        }
+        series.push(countalloc::live_bytes());
+        // ---- once per block, after the heap sample ----
+        let m = all_metrics(&otlp);
+        max_len = max_len.max(m.get(&q).copied().unwrap_or(0));
+        trunc = m.get(&t).copied().unwrap_or(0);
+        if k == 1 {
+            // the first block fills the queue without a truncation: what one event really retains
+            ev = nominal.max((series[1] - series[0]) / CAPACITY as i64);
+        }
+        alarm = growth_alarm(&series, ev);
+        if alarm.is_some() {
+            break; // do not eat the machine's memory on a tree that leaks
+        }
+        if t0.elapsed() > Duration::from_secs(240) {
+            watchdog = true;
+            break;
+        }
+    }
+    let seen = col.records().iter().filter(|rec| rec.endpoint == signal).count();
+    let done_blocks = series.len() - 1;
+    let rel: Vec<i64> = series.iter().map(|l| (l - series[0]) / 1024).collect();
+    if print {
+        eprintln!(
+            "growth otlp {} {} gzip={}: event size {} B, live heap after each block of {} emits, KiB above the start: {:?} (collector saw {} requests)",
+            sname, transport.name(), gzip, ev, CAPACITY, rel, seen
+        );
+    }
+    r.observe("otlp:growth:emit-calls-returned", done_blocks as u64 * CAPACITY);
+    r.observe("otlp:growth:heap-samples", series.len() as u64);
+    r.observe("otlp:growth:overflows", trunc);
+    r.set(&format!("growth-case-{}-retained-kib-per-block", case), json!(rel));
+    r.set(&format!("growth-case-{}-event-bytes", case), json!(ev));
+    if max_len > CAPACITY {
+        r.violation(
+            &format!("C09:otlp:pending-exceeds-capacity:{}", sname),
+            &format!("{} = {} at a block boundary of the growth scenario, capacity {}", q, max_len, CAPACITY),
+            case_json.clone(),
+        );
+    }
+    if let Some((k, retained, rise, retained_limit, rise_limit)) = alarm {
+        let mut c = case_json.clone();
+        c["retained_kib_after_each_block"] = json!(rel);
+        c["event_bytes"] = json!(ev);
+        c["requests_seen_by_the_collector"] = json!(seen);
+        r.violation(
+            &format!("C09:otlp:retained-heap-grows-with-emitted-events:{}", sname),
+            &format!(
+                "with the collector holding the first request, the live heap after {} blocks of {} emits is {} KiB above the start (limit 3 x capacity x {} B = {} KiB) and rose by {} KiB over the last {} blocks (limit a quarter of an event per emitted event = {} KiB), with {} counted truncations and {} <= {}: what the truncations discarded is not freed",
+                k,
+                CAPACITY,
+                retained / 1024,
+                ev,
+                retained_limit / 1024,
+                rise / 1024,
+                k - k / 2,
+                rise_limit / 1024,
+                trunc,
+                q,
+                max_len
+            ),
+            c,
+        );
+    } else if watchdog {
+        r.inconclusive(format!("growth otlp {}: only {} of {} blocks were emitted within 240 s", sname, done_blocks, blocks));
+    } else if trunc == 0 {
+        r.inconclusive(format!("growth otlp {}: no truncation was counted in {} blocks; growth not judged", sname, done_blocks));
+    } else {
+        r.observe("otlp:growth:scenarios-with-a-plateau", 1);
+    }
+    r.observe(if seen == 1 { "otlp:growth:worker-stalled-all-along" } else { "otlp:growth:worker-moved" }, 1);
+    r.nontrivial(&("otlp-growth", signal, transport, gzip));
+    // let go and tidy up (bounded)
+    col.set_repeat(signal, None);
+    col.release_gate();
+    // (tidying up only: the growth verdict above does not depend on it)
+    let flushed = otlp.blocking_flush(Duration::from_secs(30));
+    r.observe(if flushed { "otlp:growth:flushed-after-release" } else { "otlp:growth:flush-after-release-returned-false" }, 1);
+    col.settle();
+    drop(otlp);
+    col.shutdown();
+    for _ in 0..2_000 {
+        if threads_named("emit_otlp_worke") == 0 {
+            break;
+        }
+        std::thread::sleep(Duration::from_millis(1));
     }
 }
 
@@ -297,10 +522,28 @@ fn main() {
         let case = load_replay(path);
         let c = case.get("case").and_then(|v| v.as_u64()).unwrap_or(0);
         let s = case.get("seed").and_then(|v| v.as_u64()).unwrap_or(seed);
+        if case.get("section").and_then(|v| v.as_str()) == Some("growth") {
+            let blocks = case.get("blocks").and_then(|v| v.as_u64()).unwrap_or(24) as usize;
+            emit_otlp::verif::set_request_timeout(Some(Duration::from_secs(600)));
+            growth(&mut r, s, c, blocks, true);
+            growth(&mut r, s, c + 3, blocks, true);
+            std::process::exit(r.finish());
+        }
         let cycles = case.get("cycles").and_then(|v| v.as_u64()).unwrap_or(3);
         scenario(&mut r, s, c, cycles);
         scenario(&mut r, s, c + 9, cycles);
         std::process::exit(r.finish());
+    }
+    // the growth scenarios read the process-wide live heap: they run alone, one after the other
+    if args.get_u64("growth", 1) != 0 {
+        let blocks = args.get_u64("growth-blocks", if args.thorough() { 40 } else { 24 }) as usize;
+        let print = args.get_u64("print-series", 0) != 0;
+        emit_otlp::verif::set_request_timeout(Some(Duration::from_secs(600)));
+        // every signal once (quick), with the transport rotating with the seed
+        for i in 0..args.n(3, 9) {
+            growth(&mut r, seed, i + 3 * (seed % 6), blocks, print);
+        }
+        emit_otlp::verif::set_request_timeout(None);
     }
     // quick: every signal x {http-json, http-proto, grpc}; thorough: also all-signals-configured and gzip
     let n = args.n(9, 36);
